@@ -430,7 +430,7 @@ def set_features(pred, res, args):
 
 def set_check(work, binary, verdict, stats, tier, seed):
     rnd = random.Random(seed)
-    ncfg, ntab = 27648, 385
+    ncfg, ntab = 27648, 513
     n_rich, n_rand = (3500, 2500) if tier == "quick" else (27648, 40000)
     rich = list(range(ncfg))
     if n_rich < ncfg:
@@ -511,7 +511,8 @@ def c18(tier, seed):
     verdict.coverage["predicates"] = C18_SET_PREDS + C18_CYCLE_PREDS
     verdict.coverage["exhaustive"] = False
     verdict.assumptions = ASSUME_COMMON + [
-        "candidate-set half: one address per class (global v4/v6, link-local, site-local, IPv4-compatible, v4/v6 loopback), up to three interfaces "
+        "candidate-set half: addresses of every class (global v4/v6, link-local, site-local, IPv4-compatible, v4/v6 loopback; for the IPv6 "
+        "link-local and site-local prefixes both edges of the /10 and the last ordinary address below them), up to three interfaces "
         "(ordinary, loopback, down); the scripted STUN server answers every Binding request; relay candidates are not part of the set comparison",
         "an empty network-type list means all four network types, an empty candidate-type list means host+srflx+relay (agent_options.go / agent_config.go)",
         "the mDNS-gather clause is checked through the candidate address (name instead of IP); mDNS multicast traffic itself is scoped out",
